@@ -183,6 +183,9 @@ SigOf(name, L, ins) ==
       [] name = "node"     -> MapsSig(WithFirst(gm, <<Ent(0, "N")>>))
       [] name = "wk"       -> MapsSig(WithFirst(gm, <<Ent(0, "WK")>>))
       [] name = "custat1"  -> MapsSig(WithFirst(gm, <<Ent(1, "C")>>))
+      [] name = "custat7"  -> MapsSig(WithFirst(gm, <<Ent(7, "C")>>))
+      [] name = "nodeat1"  -> MapsSig(WithFirst(gm, <<Ent(1, "N")>>))
+      [] name = "nodeat7"  -> MapsSig(WithFirst(gm, <<Ent(7, "N")>>))
       [] name = "aggempty" -> AggSig(<<>>, <<>>, "G", "ok")
       [] name = "agggood"  -> LET g == AggGoodSigners(L, ins) IN AggSig(g, g, "G", "ok")
       [] name = "aggoor"   -> LET g == AggGoodSigners(L, ins) IN AggSig(g \o <<60>>, g, "G", "ok")
@@ -398,7 +401,25 @@ InitP0d == \E wt \in {<<"B", "late">>, <<"B", "gen">>, <<"A", "late">>}, e \in {
                o2 == [Out("script", U(100 - a.n)) EXCEPT !.nk = sh[1], !.scr = sh[2]]
            IN c = [Case(wt[1], "XIN", ins, <<Out("cancel", a), o2>>, SigOf(sg, L0, ins)) EXCEPT !.ts = wt[2], !.extra = e]
 
-InitP == InitP0 \/ InitP0b \/ InitP0c \/ InitP0d \/ InitP1 \/ InitP2
+\* core: deposits of an asset the ledger knows with a recorded total of exactly zero (deposited once,
+\* withdrawn in full), under every signature container
+InitP0e == \E w \in {"A", "B"}, a \in {ZeroAmt, U(1), U(3), H1, G1}, dv \in {"ok", "held", "otherinfo"},
+              sg \in {"cust", "wk", "custat1", "custat7", "empty", "none", "aggempty"} :
+           LET ins == <<DepIn(dv, a)>> IN
+           c = [Case(w, "ZER", ins, <<Out("script", a)>>, SigOf(sg, World(w), ins)) EXCEPT !.extra = "e0"]
+\* core: the single signature of node-operation and deposit transactions filed under a wrong map index
+InitP0f == \E t \in {"accept", "cancel", "deposit", "pledge", "remove"}, wt \in {<<"B", "late">>, <<"B", "gen">>, <<"A", "late">>},
+              sg \in {"node", "nodeat1", "nodeat7", "cust", "custat1", "custat7", "wk", "max"} :
+           LET L0 == World(wt[1])
+               ins == IF t = "deposit" THEN <<DepIn("ok", U(3))>> ELSE <<In(TypeCtx(t).slot)>>
+               tot == InAmt(World("B"), ins)
+               outs == CASE t = "deposit" -> <<Out("script", tot)>>
+                         [] t = "cancel" -> <<Out("cancel", U(1)), Out("script", U(99))>>
+                         [] OTHER -> <<Out(t, tot)>>
+           IN c = [Case(wt[1], "XIN", ins, outs, SigOf(sg, L0, ins))
+                      EXCEPT !.ts = wt[2], !.extra = (IF t = "cancel" THEN "cancelOK" ELSE IF t = "deposit" THEN "e0" ELSE NatExtra(t))]
+
+InitP == InitP0 \/ InitP0b \/ InitP0c \/ InitP0d \/ InitP0e \/ InitP0f \/ InitP1 \/ InitP2
 
 --------------------------------------------------------------------------
 Init == CASE Family = "S" -> InitS
